@@ -1,19 +1,18 @@
-"""Registry of claimed properties -> MANIFEST.json (bin/mkmanifest). One entry per property whose
-check is built, sound and green on the unchanged tree."""
+"""Registry of claimed properties -> MANIFEST.json (bin/mkmanifest).
+One checks/meta/<id>.json per property whose check is built, sound and green on the unchanged tree:
+  {"level": "...", "text": "...", "note": "...", "technique": "...", "design_ref": "..."}
+checks/meta/<id>.na.json = {"reason": "..."} marks a property as genuinely not applicable."""
+import json
+import os
 
-CLAIMED = {
-    "C15": dict(
-        level="model_checking",
-        text="TimerStore.tla (both timer kinds, callbacks that add/delete timers, lazy next-timeout cache) is checked "
-             "exhaustively by TLC for the exactly-once / not-late / ordered / overwrite invariants; TLC-simulated "
-             "behaviours are replayed into the real x/timerstore and the recorded traces are validated by TLC against "
-             "the spec (model equality on pending timers, fired log and has-answers, invariants evaluated on every real state).",
-        note="bounded constants (2 keys + callback key, expiries <= 6, 10 ops per behaviour); four callback programs; "
-             "in-memory IAVL store; TLC and the Go toolchain are trusted.",
-        technique="TLA+ spec + TLC exhaustive + TLC-generated behaviours replayed into real code + TLC trace validation",
-        design_ref="DESIGN.md §4 C15",
-    ),
-}
-
-NOT_BUILT_REASON = "check not built yet (work in progress in this session; see DESIGN.md §7 order of work)"
+HERE = os.path.dirname(os.path.abspath(__file__))
+CLAIMED = {}
 NOT_APPLICABLE = {}
+for n in sorted(os.listdir(os.path.join(HERE, "meta"))):
+    p = os.path.join(HERE, "meta", n)
+    if n.endswith(".na.json"):
+        NOT_APPLICABLE[n[:-8]] = json.load(open(p))["reason"]
+    elif n.endswith(".json"):
+        CLAIMED[n[:-5]] = json.load(open(p))
+
+NOT_BUILT_REASON = "check not built yet (work in progress; see DESIGN.md §7 order of work)"
